@@ -42,12 +42,14 @@ DSKeys == << <<256, 3, 8, <<1, 2, 3>> >>,
              <<257, 3, 13, [i \in 1..64 |-> (i * 7) % 256]>>,
              <<385, 3, 15, Fill(32, 255)>>,
              <<0, 255, 5, [i \in 1..260 |-> (i * 13 + 5) % 256]>> >>
-DSTypes == {0, 1, 2, 3, 4, 5, 255}
+\* the defined types 1, 2, 4; the holes between and beside them (0, 3 = GOST R 34.11-94, 5); the first types above every
+\* table a library may keep (6, 7); the octet's sign boundary and its end
+DSTypes == {0, 1, 2, 3, 4, 5, 6, 7, 127, 128, 255}
 DSVector(c) ==
   LET n == Variant(DSOwners[c[1]], c[2])  k == DSKeys[c[4]]
       text == IF c[2] = 4 THEN PresentDDD(UpperName(DSOwners[c[1]])) ELSE Present(n)
       rd == DNSKEYRdata(k[1], k[2], k[3], k[4]) IN
-  [kind |-> "ds", owner |-> text, dkey |-> DSDigestKey(DSHash(c[3]), text), flags |-> k[1], proto |-> k[2], alg |-> k[3], key |-> k[4],
+  [kind |-> "ds", owner |-> text, dkey |-> DSDigestKey(DSHash(c[3]), text), pkey |-> DSPanicKey(c[3]), flags |-> k[1], proto |-> k[2], alg |-> k[3], key |-> k[4],
    dt |-> c[3], hash |-> DSHash(c[3]), input |-> DSInput(n, rd), tag |-> KeyTag(rd)]
 
 -----------------------------------------------------------------------------
